@@ -257,7 +257,9 @@ func (f *File) AddChild(child Box, boxStartPos uint64) {
 		if !moovHasSamples(box) {
 			f.isFragmented = true
 			f.Init = NewMP4Init()
-			f.Init.AddChild(f.Ftyp)
+			if f.Ftyp != nil {
+				f.Init.AddChild(f.Ftyp)
+			}
 			f.Init.AddChild(f.Moov)
 		}
 	case *SidxBox:
